@@ -15,6 +15,7 @@ mod enc;
 mod encchar;
 mod label;
 mod memconv;
+mod specenc;
 mod util;
 mod valid;
 
@@ -32,6 +33,7 @@ const MODULES: &[(GenFn, ReplayFn)] = &[
     (cls::generate, cls::replay),
     (encchar::generate, encchar::replay),
     (enc::generate, enc::replay),
+    (specenc::generate, specenc::replay),
 ];
 
 fn main() {
